@@ -198,7 +198,8 @@ def main():
                     out.add(("C18.format_error", c["cell"]["exc"] + ("+tb" if c["cell"]["tb"] == "yes" else "")))
                 elif g and g[0] == "raised":
                     for name, _ in g[1]:
-                        out.add(("C18.total", "%s.%s" % (c["kind"], name)))
+                        vk = c.get("val", "-")
+                        out.add(("C18.total", "%s.%s%s" % (c["kind"], name, "" if vk in ("-", "int") else "/" + vk)))
                 else:
                     raise MachineryError("life replay did not reach step %s of %s: %s" % (j, json.dumps(c)[:300], g))
             return sorted(out)
@@ -207,6 +208,8 @@ def main():
         fe = [c for c in lcases if c["kind"] == "format_error"]
         stats["life"] = {"states": res_c.distinct, "transitions": res_c.generated, "histories": len(lcases) - len(fe),
                          "kind_state_pairs": len(visited), "object_kinds": sorted({k for k, _ in visited}),
+                         "value_kinds": sorted({c.get("val", "-") for c in lcases} - {"-"}),
+                         "histories_with_a_held_value": sum(1 for c in lcases if c.get("val", "-") != "-"),
                          "format_error_cells": len(fe), "mismatches": mis_c}
         samples += [c for c in lcases if c["kind"] == "task"][-1:] + fe[:1]
 
